@@ -267,6 +267,10 @@ func (interp *Interpreter) cfg(root *node, sc *scope, importPath, pkgName string
 						ktyp = o.typ.key
 						vtyp = o.typ.val
 					case ptrT:
+						if rt := o.typ.TypeOf(); rt.Kind() != reflect.Ptr || rt.Elem().Kind() != reflect.Array {
+							err = o.cfgErrorf("cannot range over %s (type %s)", o.name(), o.typ.id())
+							return false
+						}
 						ktyp = sc.getType("int")
 						vtyp = o.typ.val
 						if vtyp.cat == valueT {
@@ -1262,6 +1266,9 @@ func (interp *Interpreter) cfg(root *node, sc *scope, importPath, pkgName string
 				err = n.cfgErrorf("invalid operation: cannot send to receive-only channel %s", n.child[0].typ.id())
 				break
 			}
+			if err = check.assignment(n.child[1], chanElement(n.child[0].typ), "send"); err != nil {
+				break
+			}
 			fallthrough
 
 		case declStmt, exprStmt:
@@ -1512,6 +1519,10 @@ func (interp *Interpreter) cfg(root *node, sc *scope, importPath, pkgName string
 				}
 
 			default:
+				if c0.typ != nil && !isFunc(c0.typ) && !isGeneric(c0.typ) {
+					err = n.cfgErrorf("invalid operation: cannot call non-function %s (type %s)", c0.name(), c0.typ.id())
+					break
+				}
 				// The call may be on a generic function. In that case, replace the
 				// generic function AST by an instantiated one before going further.
 				if isGeneric(c0.typ) {
@@ -1586,10 +1597,18 @@ func (interp *Interpreter) cfg(root *node, sc *scope, importPath, pkgName string
 				// An untyped constant case expression is converted to the type of the switch tag.
 				tag := sn.child[len(sn.child)-2]
 				for _, c := range n.child[:len(n.child)-1] {
-					if tag.typ == nil || tag.typ.untyped || c.typ == nil || !c.typ.untyped || !c.rval.IsValid() {
+					if tag.typ == nil || c.typ == nil {
 						continue
 					}
-					if err = check.convertUntyped(c, tag.typ); err != nil {
+					if !tag.typ.untyped && c.typ.untyped && c.rval.IsValid() {
+						if err = check.convertUntyped(c, tag.typ); err != nil {
+							break
+						}
+						continue
+					}
+					// A case expression is compared with the switch tag.
+					if !tag.typ.untyped && !c.typ.untyped && tag.kind != defineStmt && tag.kind != assignStmt && !c.typ.assignableTo(tag.typ) && !tag.typ.assignableTo(c.typ) {
+						err = c.cfgErrorf("invalid case in switch (mismatched types %s and %s)", c.typ.id(), tag.typ.id())
 						break
 					}
 				}
@@ -1940,6 +1959,9 @@ func (interp *Interpreter) cfg(root *node, sc *scope, importPath, pkgName string
 				err = n.cfgErrorf("cannot use _ as value")
 				break
 			}
+			if err = check.logical(n); err != nil {
+				break
+			}
 			n.start = n.child[0].start
 			n.child[0].tnext = n.child[1].start
 			setFNext(n.child[0], n)
@@ -1958,6 +1980,9 @@ func (interp *Interpreter) cfg(root *node, sc *scope, importPath, pkgName string
 		case lorExpr:
 			if isBlank(n.child[0]) || isBlank(n.child[1]) {
 				err = n.cfgErrorf("cannot use _ as value")
+				break
+			}
+			if err = check.logical(n); err != nil {
 				break
 			}
 			n.start = n.child[0].start
@@ -2254,6 +2279,10 @@ func (interp *Interpreter) cfg(root *node, sc *scope, importPath, pkgName string
 			}
 
 		case typeSwitch:
+			if guard := n.child[1].lastChild().child[0]; guard.typ != nil && !isInterface(guard.typ) {
+				err = guard.cfgErrorf("%s (type %s) is not an interface", guard.name(), guard.typ.id())
+				return
+			}
 			// Check that cases expressions are all different
 			usedCase := map[string]bool{}
 			for _, c := range n.lastChild().child {
